@@ -37,6 +37,12 @@ def drive(case, rng, profile, test_ids=True, mutate=False, max_calls=80, script=
     out["stdout"] = run.stdout
     if not run.valid:
         return out
+    try:
+        # the generated net, before anything runs (names as strings; interned when judged)
+        out["net_sig"] = impl_run.net_signature(run, lambda x: x)
+    except Exception as e:  # noqa: BLE001
+        out["net_sig"] = None
+        out["net_sig_error"] = type(e).__name__
     pending = []      # canonical service ids announced and not yet completed (harness view)
     done = []
 
@@ -128,6 +134,16 @@ def drive(case, rng, profile, test_ids=True, mutate=False, max_calls=80, script=
 VERDICT_RE = r"(\d+), (None|Some \d+), (None|Some \d+), (true|false), (true|false)"
 
 
+def coq_sig(I, sig):
+    """implementation's net signature (impl_run.net_signature) as a Gallina term"""
+    n, s, f, tr = sig
+
+    def nl(l):
+        return pfdl_ast.coq_list([str(I(x)) if isinstance(x, str) else str(x) for x in l])
+    return "(%d, %d, %d, %s)" % (n, s, f, pfdl_ast.coq_list(
+        ["(%s, %s, %s)" % (nl(a), nl(b), pfdl_ast.coq_list([nl(c) for c in cs])) for a, b, cs in tr]))
+
+
 def judge_cases(cases_with_runs, workdir, jobs=8, proj="P_full", mon="mon_true"):
     """cases_with_runs: list of (case, drive-result).  Returns one dict per case:
     the verdict of the reference semantics (PFDL.Monitors.judge_with) with the verdict of
@@ -138,16 +154,21 @@ def judge_cases(cases_with_runs, workdir, jobs=8, proj="P_full", mon="mon_true")
         c = coqeval.coq_runcase(I, case, dr["script"])
         tr = pfdl_ast.coq_list([coqeval.coq_callrec(I, r) for r in dr["trace"]])
         defs = "Definition c%d : runcase := %s.\nDefinition i%d : list callrec := %s.\n" % (k, c, k, tr)
+        sig = dr.get("net_sig")
+        if sig is not None and case.get("options", {}).get("test_ids", True):
+            sg = "judge_net_sig c%d %s" % (k, coq_sig(I, sig))
+        else:
+            sg = "9"
         items.append((defs, "let v := judge_with %s %s c%d i%d in let w := judge_net_with %s %s c%d i%d in "
                             "((v_model v, v_disagree v, v_full_disagree v, v_mon_impl v, v_mon_model v), "
-                            "(v_model w, v_disagree w, v_full_disagree w, v_mon_impl w, v_mon_model w))"
-                      % (proj, mon, k, k, proj, mon, k, k)))
+                            "(v_model w, v_disagree w, v_full_disagree w, v_mon_impl w, v_mon_model w), %s)"
+                      % (proj, mon, k, k, proj, mon, k, k, sg)))
     raw = coqeval.eval_many(items, workdir, jobs=jobs, header=coqeval.HEADER_MON)
     out = []
     opt = lambda x: None if x == "None" else int(x.split()[1])  # noqa: E731
     for r in raw:
         t = coqeval.parse_result(r)
-        m = re.match(r"^\(" + VERDICT_RE + r", \(" + VERDICT_RE + r"\)\)$", t)
+        m = re.match(r"^\(" + VERDICT_RE + r", \(" + VERDICT_RE + r"\), (\d+)\)$", t)
         if not m:
             raise RuntimeError("unparsable verdict: " + t)
         g = m.groups()
@@ -157,6 +178,7 @@ def judge_cases(cases_with_runs, workdir, jobs=8, proj="P_full", mon="mon_true")
                     "mon_impl": h[3] == "true", "mon_model": h[4] == "true"}
         v = mk(g[0:5])
         v["net"] = mk(g[5:10])
+        v["net_sig"] = int(g[10])      # 0 equal, 1 different, 2-4 no model net, 9 not compared
         out.append(v)
     return out
 
